@@ -123,3 +123,52 @@ Theorem C17_code_mask_and_meshgrid_axes_agree : forall grid_names subset,
   gen_filter_mask_axis_names grid_names subset = filter (fun name => mem_str name subset) grid_names.
 Proof. intros. split; reflexivity. Qed.
 Print Assumptions C17_code_mask_and_meshgrid_axes_agree.
+
+(* ---- the regenerated create_filter_mask (Gen/FilterMask.v) ------------------------------------------------------------- *)
+From LCM Require Import Model.Dispatchers Gen.FilterMask Proofs.C17_FilterMask Proofs.C17_FilterMaskTie.
+(* for any number of variables, grid sizes, any filter function and fixed inputs: the mask has one axis per variable of the     *)
+(* subset, in the order of model.grids, as long as that variable's grid, and its entry at idx is the concatenated filter at     *)
+(* the idx-th grid values (each variable at ITS index) and the fixed inputs                                                     *)
+Theorem C17_code_filter_mask_entries :
+  forall (sig : list string) (scalar_filter : list qarr -> qarr),
+  (forall a, wf (scalar_filter a) /\ shape (scalar_filter a) = []) -> NoDup sig ->
+  forall (vi : list varinfo) (grids : list (string * list Q)) (subset : option (list string)) (fixed_inputs : option (list (string * qarr))),
+  NoDup (map fst grids) -> NoDup (map fst (fm_fixed fixed_inputs)) ->
+  (forall a, In a (fm_axis vi grids subset) -> In a sig) ->
+  (forall a, In a (fm_axis vi grids subset) -> ~ In a (map fst (fm_fixed fixed_inputs))) ->
+  let mask := create_filter_mask sig scalar_filter vi grids subset fixed_inputs in
+  wf mask /\ shape mask = fm_shape vi grids subset /\
+  forall idx, in_bounds (fm_shape vi grids subset) idx ->
+    qget mask idx = qget (scalar_filter (fm_args sig vi grids subset fixed_inputs idx)) [].
+Proof. exact create_filter_mask_entries. Qed.
+Print Assumptions C17_code_filter_mask_entries.
+
+(* that mask IS the filter mask the theorems above (and C01/C02/C05/C14 with filters) are stated on, when the axes are the        *)
+(* restricted variables in the Spec's canonical order and the concatenated filter (dags) computes the Spec's filters              *)
+Theorem C17_code_filter_mask_is_the_specifications :
+  forall (sig : list string) (scalar_filter : list qarr -> qarr),
+  (forall a, wf (scalar_filter a) /\ shape (scalar_filter a) = []) -> NoDup sig ->
+  forall (vi : list varinfo) (grids : list (string * list Q)) (subset : option (list string)) (fixed_inputs : option (list (string * qarr))),
+  NoDup (map fst grids) -> NoDup (map fst (fm_fixed fixed_inputs)) ->
+  (forall a, In a (fm_axis vi grids subset) -> In a sig) ->
+  (forall a, In a (fm_axis vi grids subset) -> ~ In a (map fst (fm_fixed fixed_inputs))) ->
+  forall (m : Lang.model) (p : Lang.params) (t : nat),
+  fm_axis vi grids subset = map fst (restricted_vars m) ->
+  (forall x g, In (x, g) (restricted_vars m) -> fm_grid grids x = grid_points g) ->
+  (forall idx, in_bounds (var_sizes (restricted_vars m)) idx ->
+     truthy (qget (scalar_filter (fm_args sig vi grids subset fixed_inputs idx)) [])
+     = passes m p t (env_of (restricted_vars m) (as_ienv (restricted_vars m) idx))) ->
+  as_bool_mask (create_filter_mask sig scalar_filter vi grids subset fixed_inputs) = filter_mask m p t.
+Proof. exact regenerated_mask_is_the_specifications. Qed.
+Print Assumptions C17_code_filter_mask_is_the_specifications.
+
+Local Open Scope string_scope.
+Example C17_filter_mask_nonvacuous :
+  (* health in {0,1,2} x work in {0,1}; the filter admits work <= health + period with period = 0; `cons` is not restricted *)
+  let sf := fun a : list qarr => scalar (Qofbool (Qleb (qget (nth 0 a dflt_arr) []) (qget (nth 1 a dflt_arr) [] + qget (nth 2 a dflt_arr) []))) in
+  let vi := [mkVarinfo "health" true false false true false false true false; mkVarinfo "work" false true false true false false true false;
+             mkVarinfo "cons" false true true false false false false true] in
+  let grids := [("cons", [1%Q; 2%Q]); ("health", [0%Q; 1%Q; 2%Q]); ("work", [0%Q; 1%Q])] in
+  let mask := create_filter_mask ["work"; "health"; "_period"] sf vi grids None (Some [("_period", scalar 0%Q)]) in
+  shape mask = [3; 2]%nat /\ map truthy (data mask) = [true; false; true; true; true; true].
+Proof. vm_compute. split; reflexivity. Qed.
